@@ -444,7 +444,8 @@ def generate(seed, tier):
         sched['then'] = 64
     return {'label': label, 'is_text': is_text,
             'base': payload if is_text else payload.hex(), 'faults': faults,
-            'sizes': sched['sizes'], 'then': sched['then'], 'only': None}
+            'sizes': sched['sizes'], 'then': sched['then'], 'only': None,
+            'loader': kernel.rng(seed, 'loader').choice(['SafeLoader'] * 4 + ['Loader', 'FullLoader', 'BaseLoader', 'PathLoader', 'PathLoader'])}
 
 
 def payload_of(case):
@@ -456,7 +457,7 @@ def payload_of(case):
 
 def describe(case):
     units = payload_of(case)
-    return {'label': case['label'], 'is_text': case['is_text'], 'faults': case['faults'][:5],
+    return {'label': case['label'], 'is_text': case['is_text'], 'loader': case.get('loader'), 'faults': case['faults'][:5],
             'delivered_len': len(units), 'delivered_head': repr(units[:80]), 'then': case['then'], 'sizes_head': case['sizes'][:8]}
 
 
@@ -554,6 +555,33 @@ def check_marks(exc, units, is_text, lim):
     return bad
 
 
+_loaders = {}
+
+
+def loader_for(yaml, name, backend):
+    """Shipped loader classes of both back-ends, plus a harness subclass that has path resolvers and an extra
+    implicit resolver registered (composing then runs the descend / ascend / check_resolver_prefix code, which
+    is idle for the shipped classes)."""
+    key = (name, backend)
+    if key not in _loaders:
+        pre = 'C' if backend == 'c' else ''
+        if name != 'PathLoader':
+            _loaders[key] = getattr(yaml, pre + name)
+        else:
+            cls = type(pre + 'PathLoader', (getattr(yaml, pre + 'SafeLoader'),), {})
+            cls.add_path_resolver('!p/root-seq', [], list)
+            cls.add_path_resolver('!p/key-a', ['a'], str)
+            cls.add_path_resolver('!p/any-map', [None], dict)
+            cls.add_path_resolver('!p/second', [1], None)
+            cls.add_path_resolver('!p/deep', ['a', 0, (dict, 'k')], str)
+            cls.add_path_resolver('!p/keyside', [(dict, False)], str)
+            cls.add_path_resolver('!p/null', ['n', None], None)
+            cls.add_implicit_resolver('!p/ver', re.compile(r'^v[0-9]+$'), ['v'])
+            cls.add_implicit_resolver('!p/any', re.compile(r'^@@.*$'), None)
+            _loaders[key] = cls
+    return _loaders[key]
+
+
 def execute(case):
     import yaml
     out = {'violations': [], 'evals': 0, 'probes': {}, 'faults': {}, 'sigs': [], 'extra': {}}
@@ -590,7 +618,7 @@ def execute(case):
     try:
         for backend, api, via in loads:
             current[0] = (backend, api, via)
-            L = yaml.SafeLoader if backend == 'py' else yaml.CSafeLoader
+            L = loader_for(yaml, case.get('loader') or 'SafeLoader', backend)
             src = units if via == 'memory' else SimReader(units, case['sizes'], case['then'])
             n_items = 0
             exc = None
@@ -633,6 +661,13 @@ def execute(case):
                 break
             out['evals'] += 1
             if exc is not None:
+                try:
+                    str(exc)
+                except Exception as e2:
+                    # an error that cannot be printed fails with "another exception type" as soon as it is logged
+                    out['violations'].append({'class': 'error-not-printable:' + type(e2).__name__, 'detail': {
+                        'load': [backend, api, via], 'error': type(exc).__name__, 'str_raises': repr(e2)[:300]}})
+                    break
                 bad = check_marks(exc, units, is_text, lim)
                 if bad:
                     out['violations'].append({'class': 'mark-outside-input', 'detail': {'load': [backend, api, via], 'marks': bad,
